@@ -26,6 +26,8 @@
 EXTENDS Integers, Sequences, FiniteSets, TLC, Json
 
 CONSTANTS Limit, Escape, Bursts, Kinds, MaxSteps,
+          GoAways,        \* {FALSE}, or {FALSE, TRUE}: the server has sent a graceful GOAWAY(NO_ERROR) and
+                          \* the connection is still alive (GracefulShutdownTimeout) when the flood starts
           Histories,      \* numbers of PINGs exchanged (sent, answered, answer read) before the client stops reading
           EscapeChoices   \* how many frames escape in one burst: 0..Escape in the exhaustive run, {0} in the generator
 
@@ -35,17 +37,18 @@ VARIABLES queued,    \* sc.queuedControlFrames
           escaped,   \* frames the writer moved out of the queue before blocking
           elicited,  \* control frames elicited since the client stopped reading
           up,        \* connection not yet closed by the server
+          goaway,    \* the connection is going away gracefully (the bounds hold all the same)
           hist,      \* ordinary exchanges completed before the flood (-1: not chosen yet)
           h          \* history: bursts with the expectation after each
-vars == <<queued, escaped, elicited, up, hist, h>>
+vars == <<queued, escaped, elicited, up, goaway, hist, h>>
 
-Init == queued = 0 /\ escaped = 0 /\ elicited = 0 /\ up = TRUE /\ hist = -1 /\ h = <<>>
+Init == queued = 0 /\ escaped = 0 /\ elicited = 0 /\ up = TRUE /\ goaway = FALSE /\ hist = -1 /\ h = <<>>
 
 \* The connection has a past: n PINGs, each queued (+1), taken by the scheduler (-1), written,
 \* flushed and read by the client.  Nothing of it is pending when the flood starts, so the
 \* Layer-P bounds below count only what the client elicits after it stopped reading.
 Exchange(n) ==
-  /\ hist = -1 /\ hist' = n
+  /\ hist = -1 /\ hist' = n /\ goaway' \in GoAways
   /\ queued' = queued + n - n
   /\ UNCHANGED <<escaped, elicited, up, h>>
 
@@ -56,7 +59,7 @@ Min(a, b) == IF a < b THEN a ELSE b
 \* is room (at most Escape in total).  e frames escape during this burst.
 Burst(k, n, e) ==
   /\ up /\ hist >= 0 /\ Len(h) < MaxSteps
-  /\ UNCHANGED hist
+  /\ UNCHANGED <<hist, goaway>>
   /\ e \in 0..Min(Escape - escaped, n * Yield(k))
   /\ LET y == Yield(k)
          tot == queued + n * y - e           \* if the connection survives the whole burst
@@ -84,5 +87,5 @@ MayOnly == ~up => elicited > Limit
 Delivered == up => escaped + queued <= Limit + Escape
 
 \* generator: print every maximal behaviour once
-Emit == (Len(h) = MaxSteps \/ ~up) /\ Len(h) > 0 => PrintT(ToJson([hist |-> hist, bursts |-> h]))
+Emit == (Len(h) = MaxSteps \/ ~up) /\ Len(h) > 0 => PrintT(ToJson([hist |-> hist, goaway |-> goaway, bursts |-> h]))
 =============================================================================
